@@ -217,6 +217,11 @@ func interval(t *Term) (uint64, uint64) {
 				return ls & m, hs & m
 			}
 		}
+	case OSub:
+		x, y := a(0), a(1)
+		if x.Lo >= y.Hi {
+			return x.Lo - y.Hi, x.Hi - y.Lo
+		}
 	case OMul:
 		x, y := a(0), a(1)
 		hh, hl := bits.Mul64(x.Hi, y.Hi)
